@@ -701,6 +701,44 @@ def execute(case: Dict[str, Any]) -> Dict[str, Any]:
                     violations.append(f)
             if violations and not case.get("keep_going"):
                 break
+        # C09: chains of repeated formatting inside this long-lived process
+        for chain in case.get("chains", []):
+            if violations and not case.get("keep_going"):
+                break
+            first = ops[chain[0]]
+            texts = [first["x"]]
+            complete = True
+            for i in chain:
+                r = outputs.get(i)
+                if not (isinstance(r, list) and r[0] == "ok" and isinstance(r[1], str)):
+                    complete = False
+                    break
+                texts.append(r[1])
+            if not complete or "pyrefact: skip_file" in first["x"]:
+                stats.inc("chains.incomplete_or_raised")
+                continue
+            stats.inc("chains.checked")
+            if texts[1] != texts[0]:
+                stats.inc("chains.input_changed")
+            fixed_at = next((k for k in range(len(texts) - 1) if texts[k] == texts[k + 1]), None)
+            stats.inc(f"chains.fixed_after_{fixed_at if fixed_at is not None else 'never'}")
+            key = C.sha(first["x"], first.get("safe", False), first.get("keep_imports", False))[:12]
+            if len(texts) >= 7 and texts[5] != texts[6]:
+                violations.append({"class": "C09-no-fixed-point-within-five-applications", "finding_key": "e2:noconv:" + key,
+                                   "detail": f"f^5(x) != f^6(x) for the input of op #{chain[0]} (options safe={first.get('safe', False)}, keep_imports={first.get('keep_imports', False)})"})
+            for a in range(len(texts)):
+                for b in range(a + 2, len(texts)):
+                    if texts[a] == texts[b] and any(texts[m] != texts[a] for m in range(a + 1, b)):
+                        violations.append({"class": "C09-cycle", "finding_key": "e2:cycle:" + key,
+                                           "detail": f"application {a} and {b} give the same text with a different text in between (input of op #{chain[0]})"})
+                        break
+                else:
+                    continue
+                break
+            if fixed_at is not None and any(texts[k] != texts[fixed_at] for k in range(fixed_at, len(texts))):
+                if not any(v["class"].startswith("C09") for v in violations):
+                    violations.append({"class": "C09-left-fixed-point", "finding_key": "e2:left:" + key,
+                                       "detail": f"the text was a fixed point at application {fixed_at} but changed again later"})
         stats.merge(obs.stats)
         stats.merge(server.stats)
     finally:
@@ -895,9 +933,47 @@ def generate_sweep(rng: random.Random, index: int, of: int) -> Dict[str, Any]:
     return {"engine": "e2", "knobs": rng.choice(["unbounded", "unbounded", "default"]), "ops": ops}
 
 
+def generate_chains(rng: random.Random, profile: Dict[str, Any]) -> Dict[str, Any]:
+    """C09 workload: 2-4 inputs, each formatted six times in a row on its own
+    output with one drawn option combination; the chains are interleaved so the
+    applications of one chain meet the cache state left by the others."""
+    corp = gen.corpus()
+    if profile.get("index") is not None:
+        entries = corp[profile["index"] :: profile["of"]]
+        inputs = [e["source"] for e in entries]
+    else:
+        inputs = [gen.pick_input(rng, corp) for _ in range(rng.randint(2, 4))]
+    ops: List[Dict[str, Any]] = []
+    chains: List[List[int]] = [[] for _ in inputs]
+    opts = []
+    for x in inputs:
+        o: Dict[str, Any] = {}
+        if rng.random() < 0.3:
+            o["safe"] = True
+        if rng.random() < 0.2:
+            o["keep_imports"] = True
+        if rng.random() < 0.2:
+            o["preserve"] = sorted(gen.some_names(rng, x))
+        if rng.random() < 0.15:
+            o["max_line_length"] = rng.choice([60, 79, 120])
+        opts.append(o)
+    order = [ci for ci in range(len(inputs)) for _ in range(6)]
+    if profile.get("index") is None:
+        rng.shuffle(order)
+    for ci in order:
+        op: Dict[str, Any] = {"op": "FMT", "x": inputs[ci] if not chains[ci] else "", **opts[ci]}
+        if chains[ci]:
+            op["x_from"] = chains[ci][-1]
+        chains[ci].append(len(ops))
+        ops.append(op)
+    return {"engine": "e2", "knobs": rng.choice(["default", "default", "unbounded", "small"]), "ops": ops, "chains": chains, "keep_going": True}
+
+
 def run_seed(seed: int, **profile) -> Dict[str, Any]:
     rng = random.Random(seed)
-    if profile.get("sweep"):
+    if profile.get("chains"):
+        case = generate_chains(rng, profile)
+    elif profile.get("sweep"):
         case = generate_sweep(rng, profile["index"], profile["of"])
     else:
         case = generate(rng, profile)
@@ -949,6 +1025,13 @@ def shrink(case: Dict[str, Any], vclass: str, still_fails) -> Dict[str, Any]:
             out.append(op)
         c = dict(case)
         c["ops"] = out
+        if case.get("chains"):
+            # a chain survives only whole
+            pos = {id(o): k for k, o in enumerate(out)}
+            c["chains"] = []
+            for ch in case["chains"]:
+                if all(i in remap for i in ch):
+                    c["chains"].append([remap[i] for i in ch])
         return c
 
     kept = C.ddmin(idx, lambda k: still_fails(with_ops(k)), max_tests=80)
